@@ -35,6 +35,18 @@ type Options struct {
 	LeadingBlankPaths bool // path components that begin with a blank (" lead.txt", "a/ x/f.txt")
 	MaxAuthors        int  // distinct author draws per history, default 4
 	ModeChanges       bool // a modification may flip the executable bit, with or without a content change (` mode change 100644 => 100755 path`)
+
+	// ToolSubjects: whatever kind a commit is (ordinary, empty, squash, on the side lane, true merge), its
+	// subject may be one that git or a hosting service writes: the merge subjects (Merge branch 'x' [into y],
+	// Merge branches, Merge tag, Merge commit, Merge pull request #n from u/b, Merge remote-tracking branch,
+	// Merge <hex> into <hex>, Merged in b (pull request #n), Merged PR n: ..) and the other generated ones
+	// (Revert "..", Reapply "..", fixup! / squash! / amend! .., Squashed commit of the following:, Initial
+	// commit, WIP on main: <hex> .., index on main: .., Bump x from 1.2.3 to 1.2.4, Create / Update / Delete /
+	// Rename <file>, Release v1.2.3, title (#n)). Without it only true merges carry "Merge branch 'side'".
+	ToolSubjects bool
+	// SquashMerges: an open side lane may be taken over by a squash commit (one parent, the side lane's net
+	// change as its diff) instead of a merge commit; the side lane stays unmerged. Needs Merges.
+	SquashMerges bool
 }
 
 var (
@@ -62,6 +74,15 @@ var (
 	namePoolAffix   = []string{"f.txt.orig", "xf.txt", "Makefile.am", "main.go.bak", "a-main.go"}
 	dirPoolBlank    = []string{" x", "a/ lead"}
 	namePoolBlank   = []string{" lead.txt", " 1 x.md"}
+
+	branchPool  = []string{"side", "feature/x", "fix-123", "release/1.2", "hotfix/2019-12-31", "dependabot/npm_and_yarn/lodash-4.17.21", "main", "master", "b"}
+	tagPool     = []string{"v1.0", "v1.2.3", "release-2", "1.0.0-rc.1"}
+	userPool    = []string{"octocat", "ann-lee", "dependabot", "r2d2"}
+	remotePool  = []string{"origin", "upstream", "fork"}
+	urlPool     = []string{"https://github.com/org/repo", "github.com:org/repo", "ssh://git@host:7999/p/r.git", "../other repo"}
+	versionPool = []string{"1.2.3", "1.2.4", "4.17.20", "4.17.21", "0.9", "2.0.0-beta.1"}
+	pkgPool     = []string{"lodash", "golang.org/x/text", "actions/checkout", "junit:junit"}
+	filePool    = []string{"README.md", "main.go", "f.txt", "a/sub/f.txt", "read me.txt", ".gitignore", "Makefile"}
 
 	zonePool  = []string{"+0000", "+0800", "-0700", "+0530"}
 	clockPool = []string{"12:00:00", "00:30:00", "23:45:10"}
@@ -306,6 +327,131 @@ func (g *genState) subject(author, date string) (string, string) {
 	return sb.String(), typ
 }
 
+// mergeLikeSubject draws a subject of the kind git and the hosting services write for a merge. Such a
+// subject says nothing about the commit's parents: `git merge --squash`, `git cherry-pick -m 1`, a rebase
+// of a merge or a hand-written message put it on an ordinary commit, and a true merge may carry any text.
+func (g *genState) mergeLikeSubject() string {
+	t := g.t
+	branch := func() string { return rapid.SampledFrom(branchPool).Draw(t, "branch") }
+	hex := func() string { return rapid.SampledFrom(tokHex).Draw(t, "tok") }
+	s := ""
+	switch rapid.IntRange(0, 10).Draw(t, "mergeForm") {
+	case 0:
+		s = "Merge branch '" + branch() + "'"
+	case 1:
+		s = "Merge branch '" + branch() + "' into " + branch()
+	case 2:
+		s = "Merge branch '" + branch() + "' of " + rapid.SampledFrom(urlPool).Draw(t, "url")
+		if rapid.Bool().Draw(t, "into") {
+			s += " into " + branch()
+		}
+	case 3:
+		s = "Merge branches '" + branch() + "' and '" + branch() + "'"
+		if rapid.Bool().Draw(t, "into") {
+			s += " into " + branch()
+		}
+	case 4:
+		s = "Merge tag '" + rapid.SampledFrom(tagPool).Draw(t, "tag") + "'"
+		if rapid.Bool().Draw(t, "into") {
+			s += " into " + branch()
+		}
+	case 5:
+		s = "Merge commit '" + hex() + "'"
+		if rapid.Bool().Draw(t, "into") {
+			s += " into " + branch()
+		}
+	case 6:
+		s = fmt.Sprintf("Merge pull request #%d from %s/%s", rapid.IntRange(1, 1200).Draw(t, "number"),
+			rapid.SampledFrom(userPool).Draw(t, "user"), branch())
+	case 7:
+		s = "Merge remote-tracking branch '" + rapid.SampledFrom(remotePool).Draw(t, "remote") + "/" + branch() + "'"
+		if rapid.Bool().Draw(t, "into") {
+			s += " into " + branch()
+		}
+	case 8: // the test merge GitHub makes for a pull request
+		s = "Merge " + hex() + " into " + hex()
+	case 9: // Bitbucket
+		s = fmt.Sprintf("Merged in %s (pull request #%d)", branch(), rapid.IntRange(1, 1200).Draw(t, "number"))
+	case 10: // Azure DevOps
+		s = fmt.Sprintf("Merged PR %d: %s", rapid.IntRange(1, 1200).Draw(t, "number"), g.plainText())
+	}
+	return s
+}
+
+// plainText is one to three plain words.
+func (g *genState) plainText() string {
+	t := g.t
+	s := rapid.SampledFrom(plainWords).Draw(t, "word")
+	for i, n := 0, rapid.IntRange(0, 2).Draw(t, "moreWords"); i < n; i++ {
+		s += " " + rapid.SampledFrom(plainWords).Draw(t, "word")
+	}
+	return s
+}
+
+// generatedSubject draws one of the other subjects tools write. quoted is the subject such a message cites
+// (that of an earlier commit when there is one that may be repeated here, else plain words).
+func (g *genState) generatedSubject(quoted string) string {
+	t := g.t
+	hex := func() string { return rapid.SampledFrom(tokHex).Draw(t, "tok") }
+	file := func() string { return rapid.SampledFrom(filePool).Draw(t, "file") }
+	s := ""
+	switch rapid.IntRange(0, 13).Draw(t, "generatedForm") {
+	case 0:
+		s = `Revert "` + quoted + `"`
+	case 1:
+		s = `Reapply "` + quoted + `"`
+	case 2:
+		s = `Revert "Revert "` + quoted + `""`
+	case 3:
+		s = rapid.SampledFrom([]string{"fixup! ", "squash! ", "amend! ", "fixup! fixup! "}).Draw(t, "autosquash") + quoted
+	case 4:
+		s = "Squashed commit of the following:"
+	case 5:
+		s = "Initial commit"
+	case 6:
+		s = "WIP on " + rapid.SampledFrom(branchPool).Draw(t, "branch") + ": " + hex() + " " + quoted
+	case 7:
+		s = "index on " + rapid.SampledFrom(branchPool).Draw(t, "branch") + ": " + hex() + " " + quoted
+	case 8:
+		s = "Bump " + rapid.SampledFrom(pkgPool).Draw(t, "pkg") + " from " + rapid.SampledFrom(versionPool).Draw(t, "version") +
+			" to " + rapid.SampledFrom(versionPool).Draw(t, "version")
+	case 9:
+		s = rapid.SampledFrom([]string{"Create", "Update", "Delete", "Add files via upload to"}).Draw(t, "webVerb") + " " + file()
+	case 10:
+		s = "Rename " + file() + " to " + file()
+	case 11:
+		s = rapid.SampledFrom([]string{"Release ", "Version ", ""}).Draw(t, "releaseWord") + rapid.SampledFrom(tagPool).Draw(t, "tag")
+	case 12: // the title a hosting service gives a squash-merged pull request
+		s = quoted + fmt.Sprintf(" (#%d)", rapid.IntRange(1, 1200).Draw(t, "number"))
+	case 13:
+		s = "Cherry-pick " + hex() + ": " + quoted
+	}
+	return s
+}
+
+// quotable picks the subject a generated message cites: that of an earlier commit when one exists whose
+// text may stand in this commit's subject under the feature switches, else plain words.
+func (g *genState) quotable(c Commit, earlier []Commit) string {
+	t := g.t
+	var ok []string
+	for _, e := range earlier {
+		if !g.o.RepeatAuthor && strings.Contains(e.Subject, c.Author) {
+			continue
+		}
+		if !g.o.RepeatDate && strings.Contains(e.Subject, c.Date) {
+			continue
+		}
+		if len(e.Subject) > 120 {
+			continue // citations of citations do not grow without bound
+		}
+		ok = append(ok, e.Subject)
+	}
+	if len(ok) > 0 && rapid.IntRange(0, 2).Draw(t, "quoteEarlier") > 0 {
+		return ok[rapid.IntRange(0, len(ok)-1).Draw(t, "quotedCommit")]
+	}
+	return g.plainText()
+}
+
 // ops draws the operations of one commit on tree work. Only paths accepted by own may be
 // modified, deleted or renamed (the side branch works on the files it created itself, so that
 // a merge never leaves the same lines in two files and every rename pairing stays unambiguous).
@@ -465,6 +611,9 @@ func Gen(t *rapid.T, o Options) History {
 			// empty commit on main
 		case o.Merges && g.st.sideOpen && (kind == 5 || kind == 6):
 			c.Merge = true
+			if o.SquashMerges && rapid.IntRange(0, 2).Draw(t, "squash") == 2 {
+				c.Merge, c.Squash = false, true
+			}
 		case o.Merges && g.st.tips[0] >= 0 && kind >= 8:
 			side()
 		default:
@@ -472,6 +621,24 @@ func Gen(t *rapid.T, o Options) History {
 		}
 		if c.Merge && rapid.IntRange(0, 2).Draw(t, "mergeSubject") < 2 {
 			c.Subject, c.Type = "Merge branch 'side'", ""
+		}
+		if o.ToolSubjects {
+			// 0-8 the subject drawn above, 9-10 a merge subject, 11 another generated subject; a squash commit
+			// carries a merge subject more often than not
+			w := rapid.IntRange(0, 11).Draw(t, "toolSubject")
+			if c.Squash && w >= 3 && w <= 8 {
+				w = 9
+			}
+			switch {
+			case w == 9 || w == 10:
+				c.Subject, c.Type = g.mergeLikeSubject(), ""
+			case w == 11:
+				c.Subject, c.Type = g.generatedSubject(g.quotable(c, h.Commits)), ""
+			}
+			if w >= 9 && reConv.MatchString(c.Subject) {
+				// a conventional subject cited at the front (`feat: x (#12)`) keeps its type
+				c.Type = reConvType.FindString(c.Subject)
+			}
 		}
 		if err := g.st.apply(c); err != nil {
 			panic("ggen: generator produced an invalid operation list: " + err.Error())
@@ -509,20 +676,58 @@ var (
 	reDate        = regexp.MustCompile(`\d{4}-\d{2}-\d{2}`)
 	reNumericPath = regexp.MustCompile(`(^|/)\d+ `)
 	reConv        = regexp.MustCompile(`^\w+(\([^)]*\))?: `)
+	reConvType    = regexp.MustCompile(`^\w+`)
+	reMergeLike   = regexp.MustCompile(`^(Merge|Merged) `)
+	reGenerated   = regexp.MustCompile(`^(Revert "|Reapply "|fixup! |squash! |amend! |Squashed commit of|Initial commit$|WIP on |index on |Bump |Create |Update |Delete |Add files via upload|Rename |Release |Version |Cherry-pick )|^v?\d+\.\d+\S*$|^release-\d+$`)
 )
 
 // Features lists the generator features present in a simulated history.
 func Features(sim *Sim) []string {
 	set := map[string]bool{}
 	log := sim.Log()
-	for _, c := range log {
+	for i, c := range log {
 		s := c.Commit.Subject
 		if len(c.Parents) > 1 {
 			set["merge_commit"] = true
+			switch {
+			case s == "Merge branch 'side'":
+			case reMergeLike.MatchString(s):
+				set["merge_commit_other_merge_subject"] = true
+			case reGenerated.MatchString(s):
+				set["merge_commit_generated_subject"] = true
+			}
 			continue
 		}
 		if len(c.Entries) == 0 {
 			set["empty_commit"] = true
+		}
+		if c.Commit.Squash {
+			set["squash_commit"] = true
+			if len(c.Entries) == 0 {
+				set["squash_commit_without_changes"] = true
+			}
+		}
+		if reMergeLike.MatchString(s) {
+			set["subject_merge_like"] = true
+			switch {
+			case len(c.Entries) == 0:
+				set["subject_merge_like_on_commit_without_changes"] = true
+			case c.Commit.Squash:
+				set["subject_merge_like_on_squash_commit"] = true
+			default:
+				set["subject_merge_like_on_ordinary_commit_with_changes"] = true
+			}
+			if len(c.Entries) > 0 && i == len(log)-1 {
+				set["subject_merge_like_on_last_commit_with_changes"] = true
+			}
+			if len(c.Entries) > 0 && i == 0 {
+				set["subject_merge_like_on_first_commit"] = true
+			}
+		} else if reGenerated.MatchString(s) {
+			set["subject_generated"] = true
+			if strings.Contains(s, `"`) || strings.Contains(s, "! ") {
+				set["subject_generated_cites_a_subject"] = true
+			}
 		}
 		if reBracketHex.MatchString(s) {
 			set["subject_bracketed_hex"] = true
@@ -689,7 +894,8 @@ func Special(features []string) bool {
 	for _, f := range features {
 		switch f {
 		case "rename", "delete", "binary", "path_space", "subject_bracketed_hex", "subject_brackets", "subject_hex_word",
-			"subject_repeats_author", "subject_repeats_date", "subject_other_date", "subject_arrow", "subject_colon":
+			"subject_repeats_author", "subject_repeats_date", "subject_other_date", "subject_arrow", "subject_colon",
+			"subject_merge_like", "subject_generated":
 			return true
 		}
 	}
